@@ -441,6 +441,7 @@ def run(ctx):
         "debug.rewrite_traceback_stack / fake_traceback are not modelled: only the resulting traceback is compared",
     ]
     ctx.proof("C35")
+    ctx.proof("C35lex")
     # T5 tie: the current source of write / newline / writeline / get_corresponding_lineno, translated into
     # Lib/DbgPy terms, is proved equal to the model functions for every state and argument
     import os
@@ -455,6 +456,15 @@ def run(ctx):
         ctx.obligations += 5
         ctx.obligation_names.append("Gen_dbg (regenerated, 5)")
         ctx.broken.append(f"translator gen/dbg_translate.py: the bookkeeping source left the translatable vocabulary: {e}")
+    import dbg_parse_translate
+    try:
+        ok, out = ctx.coq_obligation("Gen_dbgparse", dbg_parse_translate.emit(lib.SRC), n_obligations=2)
+        if ok:
+            ctx.trusted.append("Gen_dbgparse (expect / fail source = model equations): " + " ".join(out.split()))
+    except dbg_parse_translate.Untranslatable as e:
+        ctx.obligations += 2
+        ctx.obligation_names.append("Gen_dbgparse (regenerated, 2)")
+        ctx.broken.append(f"translator gen/dbg_parse_translate.py: TokenStream.expect / Parser.fail left the translatable vocabulary: {e}")
     n = ctx.size(4000, 40000)
     acc = ([], [])
     for idx in range(n):
